@@ -1,0 +1,509 @@
+//! Verification hooks (cargo feature `verif_hooks`).
+//!
+//! Everything in this module is inert until armed and is compiled only when the
+//! `verif_hooks` feature is enabled. It exists so that an external
+//! property-based test harness can reach a few internal mechanisms (heap
+//! growth, the interrupt poll, the shared atom table, the raw heap, the UTF-8
+//! char reader, machine footprint counters) without changing their behaviour.
+
+use crate::atom_table::{Atom, AtomTable};
+use crate::machine::Machine;
+use crate::machine::heap::{Heap, SizedHeap};
+use crate::parser::char_reader::{CharRead, CharReader};
+use crate::types::HeapCellValue;
+
+use std::io::Read;
+use std::sync::Arc;
+
+/// Fault injection for heap growth (`InnerHeap::grow`).
+pub mod alloc_fault {
+    use std::sync::atomic::{AtomicBool, AtomicI64, AtomicU64, Ordering};
+
+    static COUNTDOWN: AtomicI64 = AtomicI64::new(-1);
+    static ONE_SHOT: AtomicBool = AtomicBool::new(true);
+    static ATTEMPTS: AtomicU64 = AtomicU64::new(0);
+    static FIRED: AtomicU64 = AtomicU64::new(0);
+
+    /// Arms the injector: the `k`-th (0-based) growth attempt from now fails.
+    /// With `one_shot == false` every attempt from the `k`-th on fails.
+    pub fn arm(k: u64, one_shot: bool) {
+        ONE_SHOT.store(one_shot, Ordering::SeqCst);
+        ATTEMPTS.store(0, Ordering::SeqCst);
+        FIRED.store(0, Ordering::SeqCst);
+        COUNTDOWN.store(k as i64, Ordering::SeqCst);
+    }
+
+    /// Disarms the injector.
+    pub fn disarm() {
+        COUNTDOWN.store(-1, Ordering::SeqCst);
+    }
+
+    /// Resets the attempt counter (the injector state is unchanged).
+    pub fn reset_attempts() {
+        ATTEMPTS.store(0, Ordering::SeqCst);
+    }
+
+    /// Number of growth attempts seen since the last `arm`/`reset_attempts`.
+    pub fn attempts() -> u64 {
+        ATTEMPTS.load(Ordering::SeqCst)
+    }
+
+    /// Number of growth attempts that were made to fail since the last `arm`.
+    pub fn fired() -> u64 {
+        FIRED.load(Ordering::SeqCst)
+    }
+
+    /// Called at the top of `InnerHeap::grow`; `true` means "pretend the
+    /// allocator returned null".
+    pub(crate) fn should_fail() -> bool {
+        ATTEMPTS.fetch_add(1, Ordering::SeqCst);
+        let c = COUNTDOWN.load(Ordering::SeqCst);
+        if c < 0 {
+            return false;
+        }
+        if c == 0 {
+            if ONE_SHOT.load(Ordering::SeqCst) {
+                COUNTDOWN.store(-1, Ordering::SeqCst);
+            }
+            FIRED.fetch_add(1, Ordering::SeqCst);
+            true
+        } else {
+            COUNTDOWN.store(c - 1, Ordering::SeqCst);
+            false
+        }
+    }
+}
+
+/// Deterministic raising of the interrupt flag at a chosen poll.
+pub mod interrupt {
+    use std::sync::atomic::{AtomicI64, AtomicU64, Ordering};
+
+    static COUNTDOWN: AtomicI64 = AtomicI64::new(-1);
+    static POLLS: AtomicU64 = AtomicU64::new(0);
+    static FIRED: AtomicU64 = AtomicU64::new(0);
+
+    /// Raise the interrupt flag at the `n`-th (0-based) poll from now.
+    pub fn arm_at_poll(n: u64) {
+        POLLS.store(0, Ordering::SeqCst);
+        FIRED.store(0, Ordering::SeqCst);
+        COUNTDOWN.store(n as i64, Ordering::SeqCst);
+    }
+
+    /// Disarms the hook and clears a pending interrupt flag.
+    pub fn disarm() {
+        COUNTDOWN.store(-1, Ordering::SeqCst);
+        crate::machine::INTERRUPT.store(false, Ordering::SeqCst);
+    }
+
+    /// Resets the poll counter.
+    pub fn reset_polls() {
+        POLLS.store(0, Ordering::SeqCst);
+    }
+
+    /// Polls seen since the last `arm_at_poll`/`reset_polls`.
+    pub fn polls() -> u64 {
+        POLLS.load(Ordering::SeqCst)
+    }
+
+    /// How often the hook raised the flag since the last `arm_at_poll`.
+    pub fn fired() -> u64 {
+        FIRED.load(Ordering::SeqCst)
+    }
+
+    /// Raises the interrupt flag now, exactly as the ctrl-c handler does.
+    pub fn raise_now() {
+        crate::machine::INTERRUPT.store(true, Ordering::SeqCst);
+    }
+
+    /// Called at the top of `MachineState::check_for_interrupt`.
+    pub(crate) fn on_poll() {
+        POLLS.fetch_add(1, Ordering::SeqCst);
+        let c = COUNTDOWN.load(Ordering::SeqCst);
+        if c < 0 {
+            return;
+        }
+        if c == 0 {
+            COUNTDOWN.store(-1, Ordering::SeqCst);
+            FIRED.fetch_add(1, Ordering::SeqCst);
+            crate::machine::INTERRUPT.store(true, Ordering::SeqCst);
+        } else {
+            COUNTDOWN.store(c - 1, Ordering::SeqCst);
+        }
+    }
+}
+
+/// Direct access to the process-wide atom table, with yield points inside
+/// `AtomTable::build_with` so a harness can perturb thread schedules.
+pub mod atoms {
+    use std::sync::RwLock;
+    use std::sync::atomic::{AtomicU64, Ordering};
+
+    static YIELD_HOOK: RwLock<Option<fn(u8)>> = RwLock::new(None);
+    static RETRIES: AtomicU64 = AtomicU64::new(0);
+    static GROWTHS: AtomicU64 = AtomicU64::new(0);
+    static INSERTS: AtomicU64 = AtomicU64::new(0);
+
+    /// Installs (or removes) the function called at each yield point; the
+    /// argument names the point (0: after the unlocked lookup missed, 1: after
+    /// the update lock was taken, 2: after the block grew, 3: before the new
+    /// index set is published).
+    pub fn set_yield_hook(hook: Option<fn(u8)>) {
+        *YIELD_HOOK.write().unwrap() = hook;
+    }
+
+    /// `(epoch-recheck retries, block growths, inserted atoms)` since the
+    /// last `reset_stats`.
+    pub fn stats() -> (u64, u64, u64) {
+        (
+            RETRIES.load(Ordering::SeqCst),
+            GROWTHS.load(Ordering::SeqCst),
+            INSERTS.load(Ordering::SeqCst),
+        )
+    }
+
+    /// Clears the counters of `stats`.
+    pub fn reset_stats() {
+        RETRIES.store(0, Ordering::SeqCst);
+        GROWTHS.store(0, Ordering::SeqCst);
+        INSERTS.store(0, Ordering::SeqCst);
+    }
+
+    pub(crate) fn yield_point(k: u8) {
+        let hook = *YIELD_HOOK.read().unwrap();
+        if let Some(f) = hook {
+            f(k);
+        }
+    }
+
+    pub(crate) fn count_retry() {
+        RETRIES.fetch_add(1, Ordering::SeqCst);
+    }
+
+    pub(crate) fn count_growth() {
+        GROWTHS.fetch_add(1, Ordering::SeqCst);
+    }
+
+    pub(crate) fn count_insert() {
+        INSERTS.fetch_add(1, Ordering::SeqCst);
+    }
+}
+
+/// A handle on the process-wide atom table (keeps it alive).
+pub struct VerifAtomTable {
+    table: Arc<AtomTable>,
+}
+
+impl VerifAtomTable {
+    /// Obtains (creating it if necessary) the shared atom table.
+    pub fn get() -> Self {
+        VerifAtomTable {
+            table: AtomTable::new().expect("atom table allocation"),
+        }
+    }
+
+    /// Interns `text`, returning the atom's raw index.
+    pub fn intern(&self, text: &str) -> u64 {
+        AtomTable::build_with(&self.table, text).index
+    }
+
+    /// The text of the atom with raw index `index` (which must have been
+    /// returned by `intern`).
+    pub fn text(&self, index: u64) -> String {
+        let atom = Atom { index };
+        atom.as_str().to_string()
+    }
+
+    /// Number of dynamically interned atoms.
+    pub fn dynamic_count(&self) -> usize {
+        self.table.active_table().len()
+    }
+}
+
+/// Counters describing the size of a machine's internal stores.
+#[derive(Debug, Clone, PartialEq, Eq)]
+pub struct Footprint {
+    /// cells in the machine heap
+    pub heap_cells: usize,
+    /// bytes used on the and/or stack
+    pub stack_top: usize,
+    /// entries in the trail vector
+    pub trail_len: usize,
+    /// logical trail top
+    pub tr: usize,
+    /// newest choice point
+    pub b: usize,
+    /// current catch block
+    pub block: usize,
+    /// entries in the load-context stack
+    pub load_contexts: usize,
+    /// inactive load states alive in the arena
+    pub inactive_load_states: usize,
+    /// entries of the float offset table
+    pub f64_entries: usize,
+    /// instructions in the code area
+    pub code_len: usize,
+    /// dynamically interned atoms (process wide)
+    pub atom_count: usize,
+    /// entries in the operator directory
+    pub op_dir_len: usize,
+    /// cells in the lifted heap (findall/bagof)
+    pub lifted_heap_cells: usize,
+    /// pending setup_call_cleanup continuation points
+    pub cont_pts: usize,
+    /// saved exception balls
+    pub ball_stack: usize,
+    /// cells of the current exception ball
+    pub ball_cells: usize,
+    /// attributed variable queue lengths (bindings, attr_var queue)
+    pub attr_var_queues: (usize, usize),
+    /// entries of the inference-limit stack
+    pub cwil_depth: usize,
+    /// entries in the code directory of module user
+    pub code_dir_len: usize,
+}
+
+impl Machine {
+    /// Size counters of this machine's stores.
+    pub fn verif_footprint(&self) -> Footprint {
+        Footprint {
+            heap_cells: self.machine_st.heap.cell_len(),
+            stack_top: self.machine_st.stack.top(),
+            trail_len: self.machine_st.trail.len(),
+            tr: self.machine_st.tr,
+            b: self.machine_st.b,
+            block: self.machine_st.block,
+            load_contexts: self.load_contexts.len(),
+            inactive_load_states: self.machine_st.arena.verif_inactive_load_state_count(),
+            f64_entries: self.machine_st.arena.f64_tbl.verif_entry_count(),
+            code_len: self.code.len(),
+            atom_count: self.machine_st.atom_tbl.active_table().len(),
+            op_dir_len: self.indices.op_dir.len(),
+            lifted_heap_cells: self.machine_st.lifted_heap.cell_len(),
+            cont_pts: self.machine_st.cont_pts.len(),
+            ball_stack: self.machine_st.ball_stack.len(),
+            ball_cells: self.machine_st.ball.stub.cell_len(),
+            attr_var_queues: (
+                self.machine_st.attr_var_init.bindings.len(),
+                self.machine_st.attr_var_init.attr_var_queue.len(),
+            ),
+            cwil_depth: self.machine_st.cwil.verif_depth(),
+            code_dir_len: self.indices.code_dir.len(),
+        }
+    }
+
+    /// FNV-1a hash of the raw contents of the first `n` heap cells (all
+    /// cells when `n` exceeds the heap length).
+    pub fn verif_heap_prefix_hash(&self, n: usize) -> u64 {
+        let heap = &self.machine_st.heap;
+        let n = n.min(heap.cell_len());
+        let bytes = &SizedHeap::as_slice(heap)[..n * 8];
+        let mut h: u64 = 0xcbf29ce484222325;
+        for b in bytes {
+            h ^= *b as u64;
+            h = h.wrapping_mul(0x100000001b3);
+        }
+        h
+    }
+}
+
+/// A raw term heap, exposing the allocation primitives of the machine heap.
+pub struct VerifHeap {
+    heap: Heap,
+}
+
+/// Heap growth failed.
+#[derive(Debug, Clone, Copy, PartialEq, Eq)]
+pub struct VerifAllocError;
+
+impl VerifHeap {
+    /// An empty heap that allocates on first use.
+    pub fn new() -> Self {
+        VerifHeap { heap: Heap::new() }
+    }
+
+    /// A heap with room for `cap` cells.
+    pub fn with_cell_capacity(cap: usize) -> Result<Self, VerifAllocError> {
+        Heap::with_cell_capacity(cap)
+            .map(|heap| VerifHeap { heap })
+            .map_err(|_| VerifAllocError)
+    }
+
+    /// Cells in use.
+    pub fn cell_len(&self) -> usize {
+        self.heap.cell_len()
+    }
+
+    /// Bytes in use.
+    pub fn byte_len(&self) -> usize {
+        self.heap.byte_len()
+    }
+
+    /// The used part of the heap as bytes.
+    pub fn bytes(&self) -> &[u8] {
+        SizedHeap::as_slice(&self.heap)
+    }
+
+    /// The raw value of cell `idx`.
+    pub fn cell(&self, idx: usize) -> u64 {
+        u64::from_le_bytes(self.heap[idx].into_bytes())
+    }
+
+    /// Pushes one cell with raw value `raw`.
+    pub fn push_cell(&mut self, raw: u64) -> Result<(), VerifAllocError> {
+        self.heap
+            .push_cell(HeapCellValue::from_bytes(raw.to_le_bytes()))
+            .map_err(|_| VerifAllocError)
+    }
+
+    /// Reserves `n` cells and writes `cells` (at most `n`) into the section.
+    pub fn reserve_and_write(&mut self, n: usize, cells: &[u64]) -> Result<(), VerifAllocError> {
+        let mut writer = self.heap.reserve(n).map_err(|_| VerifAllocError)?;
+        let _ = writer.write_with(|section| {
+            for raw in cells.iter().take(n) {
+                section.push_cell(HeapCellValue::from_bytes(raw.to_le_bytes()));
+            }
+        });
+        Ok(())
+    }
+
+    /// `Heap::allocate_pstr`; returns the raw cell referring to the string.
+    pub fn allocate_pstr(&mut self, src: &str) -> Result<u64, VerifAllocError> {
+        self.heap
+            .allocate_pstr(src)
+            .map(|c| u64::from_le_bytes(c.into_bytes()))
+            .map_err(|_| VerifAllocError)
+    }
+
+    /// `Heap::allocate_cstr`; returns the raw cell referring to the string.
+    pub fn allocate_cstr(&mut self, src: &str) -> Result<u64, VerifAllocError> {
+        self.heap
+            .allocate_cstr(src)
+            .map(|c| u64::from_le_bytes(c.into_bytes()))
+            .map_err(|_| VerifAllocError)
+    }
+
+    /// `Heap::copy_pstr_within` of the string segment starting at byte
+    /// `pstr_loc`; returns the cell index of the source's tail.
+    pub fn copy_pstr_within(&mut self, pstr_loc: usize) -> Result<usize, VerifAllocError> {
+        self.heap
+            .copy_pstr_within(pstr_loc)
+            .map_err(|_| VerifAllocError)
+    }
+
+    /// `Heap::copy_slice_to_end` of the cell range `start..end`.
+    pub fn copy_slice_to_end(&mut self, start: usize, end: usize) -> Result<(), VerifAllocError> {
+        self.heap
+            .copy_slice_to_end(start..end)
+            .map_err(|_| VerifAllocError)
+    }
+
+    /// Appends all cells of `other`.
+    pub fn append(&mut self, other: &VerifHeap) -> Result<(), VerifAllocError> {
+        self.heap.append(&other.heap).map_err(|_| VerifAllocError)
+    }
+
+    /// Truncates to `cell_offset` cells.
+    pub fn truncate(&mut self, cell_offset: usize) {
+        self.heap.truncate(cell_offset)
+    }
+
+    /// The string segment starting at byte `pstr_loc` (up to its NUL).
+    pub fn scan_str(&self, pstr_loc: usize) -> (String, usize) {
+        let scan = SizedHeap::scan_slice_to_str(&self.heap, pstr_loc);
+        (scan.string.to_string(), scan.tail_idx)
+    }
+
+    /// Bytes `Heap::compute_pstr_size` says `src` needs.
+    pub fn compute_pstr_size(src: &str) -> usize {
+        Heap::compute_pstr_size(src)
+    }
+}
+
+impl Default for VerifHeap {
+    fn default() -> Self {
+        Self::new()
+    }
+}
+
+/// One item delivered by [`VerifCharReader`].
+#[derive(Debug, Clone, PartialEq, Eq)]
+pub enum VerifCharItem {
+    /// a decoded character
+    Char(char),
+    /// an invalid UTF-8 sequence (the offending bytes)
+    BadUtf8(Vec<u8>),
+    /// another I/O error (its kind as text)
+    IoError(String),
+    /// end of input
+    End,
+}
+
+fn char_item(r: Option<std::io::Result<char>>) -> VerifCharItem {
+    match r {
+        None => VerifCharItem::End,
+        Some(Ok(c)) => VerifCharItem::Char(c),
+        Some(Err(e)) => {
+            let kind = e.kind();
+            match e
+                .into_inner()
+                .and_then(|b| b.downcast::<crate::parser::char_reader::BadUtf8Error>().ok())
+            {
+                Some(bad) => VerifCharItem::BadUtf8(bad.bytes),
+                None => VerifCharItem::IoError(format!("{kind:?}")),
+            }
+        }
+    }
+}
+
+/// The UTF-8 decoding reader used by every text stream, over any `Read`.
+pub struct VerifCharReader<R: Read> {
+    inner: CharReader<R>,
+}
+
+impl<R: Read> VerifCharReader<R> {
+    /// Wraps `inner`.
+    pub fn new(inner: R) -> Self {
+        VerifCharReader {
+            inner: CharReader::new(inner),
+        }
+    }
+
+    /// `CharRead::peek_char`.
+    pub fn peek_char(&mut self) -> VerifCharItem {
+        char_item(self.inner.peek_char())
+    }
+
+    /// `CharRead::read_char`.
+    pub fn read_char(&mut self) -> VerifCharItem {
+        char_item(self.inner.read_char())
+    }
+
+    /// `CharRead::put_back_char`.
+    pub fn put_back_char(&mut self, c: char) {
+        self.inner.put_back_char(c)
+    }
+
+    /// `CharRead::consume`.
+    pub fn consume(&mut self, n: usize) {
+        self.inner.consume(n)
+    }
+
+    /// `CharReader::peek_byte`.
+    pub fn peek_byte(&mut self) -> Option<Result<u8, String>> {
+        self.inner
+            .peek_byte()
+            .map(|r| r.map_err(|e| format!("{:?}", e.kind())))
+    }
+
+    /// `Read::read` into a buffer of `n` bytes.
+    pub fn read_bytes(&mut self, n: usize) -> Result<Vec<u8>, String> {
+        let mut buf = vec![0u8; n];
+        match self.inner.read(&mut buf) {
+            Ok(k) => {
+                buf.truncate(k);
+                Ok(buf)
+            }
+            Err(e) => Err(format!("{:?}", e.kind())),
+        }
+    }
+}
